@@ -6,7 +6,7 @@ LEVEL = "model_checking"
 TECHNIQUE = "CBMC bounded symbolic execution of re.c yr_re_fast_exec on the real code emitted by the real compiler for hex templates (all data up to N bytes), against a token-level reference matcher; unwind bounds derived from the template"
 ASSUMPTIONS = ["program dimension: hex templates without alternatives (bytes, ??, ?X, X?, ~XX, ~?X, [n], [n-m]); patterns with alternatives run on the full regex VM (yr_re_exec) whose symbolic execution is intractable (DESIGN P7) - outside",
                "forward matching from the pattern start (atom at the start of the template); chained (split) patterns are outside this round",
-               "data <= 6 bytes (7 thorough)"]
+               "data <= 6 bytes"]
 LEVEL_TEXT = "Bounded model checking of the fast matcher against the documented hex semantics for every data buffer in the bound, per template."
 LEVEL_NOTE = "; ".join(ASSUMPTIONS)
 
@@ -20,9 +20,10 @@ TEMPLATES = [
     ("jump01", "61 62 [0-1] 63 64"),
     ("twojumps", "61 [1-2] 62 [0-1] 63"),
 ]
-THOROUGH = [
-    ("jump13w", "61 62 [1-3] ?? 63"),
-    ("jumpnot", "61 62 [0-2] ~63 64"),
+THOROUGH = [   # (jumps wider than 2 positions or combined with a negation do not finish in 900 s)
+    ("wild2", "61 62 ?? ?? 64"),
+    ("notwild", "61 62 ~63 ?? 64"),
+    ("jump2", "61 62 [2] 63"),
 ]
 
 
@@ -69,6 +70,10 @@ def fast_h(name, pat, N):
 
 
 def harnesses(ctx, tier):
-    N = 7 if tier == "thorough" else 6
-    T = TEMPLATES + (THOROUGH if tier == "thorough" else [])
-    return [fast_h(n, p, N) for n, p in T]
+    N = 6      # 7 bytes: the jump templates run out of memory at 12 GB
+    hs = [fast_h(n, p, N) for n, p in TEMPLATES]
+    if tier == "thorough":
+        for n, p in THOROUGH:
+            h = fast_h(n, p, 6)
+            hs.append(h)
+    return hs
